@@ -52,3 +52,13 @@ Theorem C12_finalize : forall (F : list N -> list N) (input : bytes) (md : N) (u
 Proof. reflexivity. Qed.
 
 
+
+(* every request for a tag is answered alike whatever OTHER tags were punctured in between (the punctured tag's own
+   requests are refused, C14): the answer, hence the client's unblinded point and finalised output, does not depend
+   on the puncture history *)
+From StarV Require Import SrvInv.
+Theorem C12_history_independent : forall (F : list N -> list N) (G : grp) (s0 : server) (seed0 seed1 : bytes) (h : list N)
+  (p : bytes) (md : N) (v : bool) (r : Z),
+  sv_ggm s0 = ginit bytes seed0 seed1 -> ~ In (md_bits md) (map md_bits h) ->
+  server_eval F G (after F s0 h) p md v r = server_eval F G s0 p md v r.
+Proof. exact eval_history_independent. Qed.
